@@ -53,12 +53,14 @@ pub struct Spec {
     pub hv: u8,
     /// leaf directories in level order (deepest first) instead of depth-first post-order
     pub level_order: bool,
+    /// encoder parameter set of the internal compression (see spec::codec::with_variant)
+    pub cv: u8,
 }
 
 impl Spec {
     pub fn to_json(&self) -> Value {
         json!({"kind":"foreign","order":self.order,"gap":self.gap,"root_gap":self.root_gap,"shape":format!("{:?}",self.shape),"run":self.run,
-               "offs":format!("{:?}",self.offs),"n":self.n,"meta":self.meta,"comp":self.comp,"base":self.base.to_string(),"hv":self.hv,"level_order":self.level_order})
+               "offs":format!("{:?}",self.offs),"n":self.n,"meta":self.meta,"comp":self.comp,"base":self.base.to_string(),"hv":self.hv,"level_order":self.level_order,"cv":self.cv})
     }
     pub fn from_json(v: &Value) -> Spec {
         Spec {
@@ -74,6 +76,7 @@ impl Spec {
             base: v["base"].as_str().and_then(|s| s.parse().ok()).unwrap_or(0),
             hv: v["hv"].as_u64().unwrap_or(0) as u8,
             level_order: v["level_order"].as_bool().unwrap_or(false),
+            cv: v["cv"].as_u64().unwrap_or(0) as u8,
         }
     }
 }
@@ -229,7 +232,7 @@ pub fn build(s: &Spec) -> Foreign {
         3 => Some(META_SPACED.as_bytes()),
         _ => Some(META_OBJECT.as_bytes()),
     };
-    let mut f = encode_foreign(&root, &data, meta, s.comp, &lay, header_variant(s.hv));
+    let mut f = crate::spec::codec::with_variant(s.cv, || encode_foreign(&root, &data, meta, s.comp, &lay, header_variant(s.hv)));
     if s.hv % 4 == 3 {
         // the specification allows a writer to leave the three statistics at 0 ("unknown")
         f.header.n_addressed = 0;
@@ -307,16 +310,24 @@ pub fn product(thorough: bool) -> Vec<Spec> {
                         for meta in 0..4u8 {
                             for comp in 1..=4u8 {
                                 idx += 1;
-                                out.push(Spec { order: o, gap: g, root_gap: rg, shape, run, offs, n, meta, comp, base: [0u64, 1, 5, 1 << 40][(idx % 4) as usize], hv: (idx % 4) as u8, level_order: false });
+                                out.push(Spec { order: o, gap: g, root_gap: rg, shape, run, offs, n, meta, comp, base: [0u64, 1, 5, 1 << 40][(idx % 4) as usize], hv: (idx % 4) as u8, level_order: false, cv: 0 });
                                 // nested shapes also in level order (sibling leaves back to back, children elsewhere)
                                 if shape == Shape::Depth3 && n >= 3 {
-                                    out.push(Spec { order: o, gap: g, root_gap: rg, shape, run, offs, n, meta, comp, base: [0u64, 1, 5, 1 << 40][(idx % 4) as usize], hv: (idx % 4) as u8, level_order: true });
+                                    out.push(Spec { order: o, gap: g, root_gap: rg, shape, run, offs, n, meta, comp, base: [0u64, 1, 5, 1 << 40][(idx % 4) as usize], hv: (idx % 4) as u8, level_order: true, cv: 0 });
                                 }
                             }
                         }
                     }
                 }
             }
+        }
+    }
+    // the same content from encoders with other parameters (maximum and minimum settings, see spec::codec)
+    let base: Vec<Spec> = out.iter().filter(|s| s.n == 7 && s.meta >= 2 && s.comp >= 2 && s.gap == 0 && s.order < 2 && s.run == 2 && matches!(s.offs, Offs::Contiguous | Offs::BackRefs)).cloned().collect();
+    for mut s in base {
+        for cv in [1u8, 2] {
+            s.cv = cv;
+            out.push(s.clone());
         }
     }
     out
@@ -333,7 +344,7 @@ pub fn rewrite_bases() -> Vec<(String, Vec<u8>, crate::model::Logical)> {
             idx += 1;
             let comp = (idx % 4) as u8 + 1;
             let hv = (idx % 2) as u8;
-            let s = Spec { order: idx % 6, gap: [0usize, 1, 13][idx % 3], root_gap: idx % 5 == 0, shape, run, offs, n, meta: 2 + (idx % 2) as u8, comp, base: [0u64, 1, 5][idx % 3], hv, level_order: shape == Shape::Depth3 && idx % 2 == 0 };
+            let s = Spec { order: idx % 6, gap: [0usize, 1, 13][idx % 3], root_gap: idx % 5 == 0, shape, run, offs, n, meta: 2 + (idx % 2) as u8, comp, base: [0u64, 1, 5][idx % 3], hv, level_order: shape == Shape::Depth3 && idx % 2 == 0, cv: (idx % 3) as u8 };
             let f = build(&s);
             let internal = crate::common::comp_from_code(comp);
             let mut l = Logical::new(internal);
